@@ -223,3 +223,14 @@ package candidates
 //@   trusted
 //@   ensures result == pubKeyOfID(c, id)
 //@   modifies candCache
+
+//@ # ---------------------------------------------------------------- C17: the ranking is by total stake
+//@ # The comparator handed to sort.SliceStable in getOrderedCandidatesLessID, verified as a unit of its own (candidates is
+//@ # its captured variable: a pointer to the enclosing function's slice). "Top candidates by total stake": a candidate
+//@ # with more stake ranks first; among equal stakes the lower id ranks first (a total, deterministic order).
+//@ func (*Candidates).getOrderedCandidatesLessID$1
+//@   serves C17
+//@   let l = deref(candidates)
+//@   requires candidates != nil && 0 <= i && i < len(l) && 0 <= j && j < len(l) && l[i] != nil && l[j] != nil && l[i].totalBipStake != nil && l[j].totalBipStake != nil
+//@   ensures bystake: l[i].totalBipStake.val != l[j].totalBipStake.val ==> result == (l[i].totalBipStake.val > l[j].totalBipStake.val)
+//@   ensures tiebreak: l[i].totalBipStake.val == l[j].totalBipStake.val ==> result == (l[i].ID < l[j].ID)
